@@ -1,6 +1,6 @@
 (* Inner.v — the cycle arithmetic of inner.rs (as translated in Gen.v) against the closed forms of Spec.v. *)
 From JV Require Import Sem Gen Spec SpecX.
-From JV.Proofs Require Import SpecFacts.
+From JV.Proofs Require Import Meq SpecFacts.
 Open Scope Z_scope.
 Ltac Zify.zify_post_hook ::= Z.to_euclidean_division_equations.
 
@@ -97,39 +97,32 @@ Qed.
 Lemma gregorian2jdn_ok y o : in_i32 y -> 1 <= o <= 366 ->
   inner_gregorian2jdn y o = Ret (chk_jdn (G0 y + o - 1)).
 Proof.
-  intros Hy Ho. unfold inner_gregorian2jdn, chk_jdn, in_i32b. consts.
-  destruct ((y <? -5884323) || (y =? -5884323) && (o <? 135) || (y =? 5874898) && (154 <? o) || (5874898 <? y)) eqn:G.
-  - f_equal. unfold G0. replace (_ && _) with false; [reflexivity|]. range.
-  - rewrite i32_sub_ok by range. cbn [bind].
-    rewrite i32_div_euclid_pos by range. cbn [bind].
-    rewrite i32_add_ok by range. cbn [bind].
-    rewrite i32_div_euclid_pos by range. cbn [bind].
-    rewrite i32_add_ok by range. cbn [bind].
-    rewrite i32_sub_ok by range. cbn [bind].
-    rewrite i32_add_ok by range. cbn [bind].
-    rewrite i32_div_euclid_pos by range. cbn [bind].
-    rewrite i32_sub_ok by range. cbn [bind].
-    rewrite i32_sub_ok by range. cbn [bind].
-    rewrite i32_mul_ok by range. cbn [bind].
-    rewrite u32_sub_ok by range. cbn [bind]. rewrite to_i32_id by range.
-    rewrite i32_add_ok by range. cbn [bind].
-    rewrite i32_add_ok by range. cbn [bind].
-    rewrite i32_add_ok by (unfold G0 in *; range). cbn [bind].
-    f_equal. unfold G0. replace (_ && _) with true by range. f_equal. lia.
+  intros Hy Ho. unfold inner_gregorian2jdn, chk_jdn. consts.
+  (* the documented range of the proleptic Gregorian calendar is exactly where the day number fits 32 bits *)
+  assert (GD : in_i32b (G0 y + o - 1) = negb ((y <? -5884323) || (y =? -5884323) && (o <? 135) || (y =? 5874898) && (154 <? o) || (5874898 <? y))).
+  { unfold in_i32b, G0. destruct ((y <? -5884323) || (y =? -5884323) && (o <? 135) || (y =? 5874898) && (154 <? o) || (5874898 <? y)) eqn:G; cbn [negb]; range. }
+  destruct (in_i32b (G0 y + o - 1)) eqn:Fit.
+  - (* in range: no operation overflows, whatever the order in which the code performs them *)
+    assert (YR : -5884323 <= y <= 5874898) by lia.
+    autounfold with gen_new. cbn [bind negb andb orb]. cmp_simpl. cbn [bind negb andb orb].
+    unfold in_i32b, G0 in Fit.
+    repeat first [ mstep1 | progress cmp_simpl | progress cbn [bind negb andb orb]
+                 | match goal with |- context[if ?c then _ else _] => destruct c eqn:? end ];
+      first [ f_equal; f_equal; unfold G0; lia | exfalso; lia ].
+  - autounfold with gen_new.
+    repeat first [ progress cbn [bind negb andb orb] | progress cmp_simpl
+                 | match goal with |- context[if ?c then _ else _] => destruct c eqn:? end ];
+      first [ reflexivity | exfalso; lia ].
 Qed.
 
 (* ------------------------------------------------------------------ Unix time, weekdays *)
 Lemma unix2jdn_ok t : in_i64 t ->
   unix2jdn t = Ret (if in_i32b (t / 86400 + 2440588) then Ok (t / 86400 + 2440588, t mod 86400) else Err mkArithmeticError).
 Proof.
-  intros H. unfold unix2jdn, in_i32b. consts.
-  rewrite i64_div_euclid_pos by range. cbn [bind].
-  rewrite to_i64_id by range. rewrite i64_add_ok by range. cbn [bind].
-  rewrite !to_i64_id by range.
-  unfold i32_min, i32_max.
-  destruct ((-2147483648 <=? t / 86400 + 2440588) && (t / 86400 + 2440588 <=? 2147483647)) eqn:E.
-  - rewrite i64_rem_euclid_pos by lia. cbn [bind]. rewrite to_i32_id by range. rewrite to_u32_id by range. reflexivity.
-  - reflexivity.
+  intros H. unfold unix2jdn, in_i32b. consts. unfold i32_min, i32_max.
+  repeat first [ mstep1 | rewrite i64_rem_euclid_pos by lia | progress cbn [bind negb andb orb]
+               | match goal with |- context[if ?c then _ else _] => destruct c eqn:? end ];
+    first [ reflexivity | exfalso; lia | leaf_eq ].
 Qed.
 
 Lemma jdn2unix_ok j : in_i32 j -> jdn2unix j = Ret ((j - 2440588) * 86400).
